@@ -18,9 +18,20 @@ theorem ring_total (box : Bound α) (inp : List (Pt α)) : ∃ out, ring box inp
 theorem ring_vertices_in_box (box : Bound α) (hb : BoxOK box) (inp out : List (Pt α)) (h : ring box inp = some out) :
     ∀ v ∈ out, InBox box v := ring_vertices_in_box' box hb inp out h
 
-/-- Every vertex of the clipped ring lies on the (implicitly or explicitly closed) input chain. -/
-theorem ring_vertices_on_input (box : Bound α) (hb : BoxOK box) (inp out : List (Pt α)) (h : ring box inp = some out) :
-    ∀ v ∈ out, v ∈ inp ∨ ∃ a ∈ inp, ∃ b ∈ inp, OnSeg a b v := ring_vertices_on_input' box hb inp out h
+/-- Every vertex of the clipped ring lies on a segment of the implicitly closed input chain, or is a
+    corner of the box (Sutherland–Hodgman emits box corners that lie inside the region).
+    [An earlier version of this statement omitted the corner case; it was FALSE of the code and of
+    any correct clipper — `C08.ring_vertices_on_input_false` in C08Counter.lean is the kernel-checked
+    refutation: box [0,2]², triangle (-3,1),(1,-3),(1,1) yields the corner (0,0).] -/
+theorem ring_vertices_on_chain (box : Bound α) (hb : BoxOK box) (inp out : List (Pt α)) (h : ring box inp = some out) :
+    ∀ v ∈ out, (∃ s ∈ C08.cycSegs inp, OnSeg s.1 s.2 v) ∨ C08.IsCorner box v :=
+  C08.ring_vertices_on_chain box hb inp out h
+
+/-- Every output vertex inherits every convex property shared by all input vertices (e.g. lying in
+    any half-plane or any convex region that contains the input). -/
+theorem ring_vertices_in_hull (box : Bound α) (inp out : List (Pt α)) (h : ring box inp = some out)
+    (C : Pt α → Prop) (hC : C08.Conv C) (hin : ∀ v ∈ inp, C v) : ∀ v ∈ out, C v :=
+  C08.ring_vertices_in_hull box inp out h C hC hin
 
 /-- A ring wholly inside the box comes back unchanged. -/
 theorem ring_inside_id (box : Bound α) (inp : List (Pt α)) (hin : ∀ v ∈ inp, InBox box v) :
